@@ -269,5 +269,5 @@ def run_case(case, ctx):
       ctx.count("cluster_atoms_checked")
       # the files print 6 (TABEAM) to 16 digits; linear interpolation is exact for c*r up to the printed quantum
       tol = 2e-6 * max(1.0, len(cluster)) + 1e-6 * abs(float(tot_m))
-      if abs(tot_f - float(tot_m)) > tol:
+      if not (abs(tot_f - float(tot_m)) <= tol):
         ctx.violation("cluster_density", "atom %d (%s): density from file %.8g, from model %.8g (route=%s target=%s)" % (i, si, tot_f, float(tot_m), route, model["target"]), what="cluster_density")
